@@ -313,3 +313,27 @@ PROPS["C16"] = dict(
     assumptions=SDL_ASSUME + ["extend blocks are written with an explicit body (the form ggql's grammar supports)"],
     design_ref="DESIGN.md section 5 C16",
 )
+
+PROPS["C14"] = dict(
+    pkg="sdl", test="TestC14", engine="sdl",
+    quick=dict(checks=600, shards=3), thorough=dict(checks=64000, shards=16), timeout=dict(quick=600, thorough=3000),
+    nt_floor=dict(quick=300, thorough=30000),
+    must_classes=["failing-load", "successful-load", "failing-load-touches-existing-definitions"] + ["fail-class=" + c for c in
+                  ["syntax", "undefined-reference", "duplicate-type", "duplicate-member-by-extend", "extend-missing-target", "extend-kind-mismatch",
+                   "validation-rule", "schema-block-then-failure", "reader-fault", "second-extension-fails", "addtypes-duplicate"]],
+    level="exploration",
+    technique="stateful (history) property-based testing against a model root: generated sequences of succeeding and failing loads with injected failure classes and reader faults; observables compared before/after every failing step and with a fresh root at the end",
+    rule="A generated schema is cut into up to 4 reference-preserving documents with extend blocks (the successful loads). Between them rapid"
+         " inserts failing loads: valid content that touches existing definitions first (the next valid document and/or synthetic extends of"
+         " loaded objects, enums, inputs and unions, a schema block) plus one failure - syntax error, undefined reference, duplicate type,"
+         " duplicate member through extend, extension of a missing or different-kind target, a second extension that fails after a first"
+         " applied, a validation rule, a schema block followed by a failure, or a reader that fails / short-reads / returns data with the"
+         " error at a drawn byte offset - placed before or after the valid content; also Root.AddTypes with a duplicate. Oracle: after every"
+         " failing step Root.SDL(true,true), the full introspection response and four fixed requests equal the snapshot taken before the"
+         " step; every valid document still loads; at the end all observables equal those of a fresh root that loaded only the successful"
+         " documents. Non-trivial = a failing load whose document contains an extend or schema block.",
+    level_text="Histories are sampled; each step's oracle is exact (byte-equal observables).",
+    level_note="Trusted: the observables listed; ggql itself as the model (a fresh root over the successful documents).",
+    assumptions=SDL_ASSUME,
+    design_ref="DESIGN.md section 5 C14",
+)
